@@ -54,9 +54,23 @@ pub fn run_case(case: &Case) -> Outcome {
     let tol = if cp.p.has_closed_form() { case.tol } else { case.tol.max(1e-9) };
     let l = cp.rate;
     let dt_max = case.frac * solver.step_cap(tol / amp) / l;
-    let dt_min = 1e-7 * dt_max;
     // bound the path length (steps) so that a case stays cheap
     let t_len = case.tlen.min(40_000.0 * dt_max).max(12.0 * dt_max);
+    // The step cap of the quantifier ("the terms the estimator cannot see are themselves below the tolerance")
+    // is stated for solutions of unit size; a linear problem with a growing mode reaches cond |y0 - c| e^{mu T}
+    // over the interval, so the cap is computed from the tolerance divided by that size as well.
+    let reach = match &case.problem {
+        Problem::Lin { center, .. } => {
+            let d0 = y0.iter().zip(center).map(|(a, b)| (a - b) * (a - b)).sum::<f64>().sqrt();
+            (cp.cond * d0 * (cp.growth * t_len).exp()).max(1.0)
+        }
+        _ => 1.0,
+    };
+    if reach > 4.0 * amp.max(1.0) {
+        o.label("growing-solution");
+    }
+    let dt_max = dt_max.min(case.frac * solver.step_cap(tol / reach.max(amp)) / l);
+    let dt_min = 1e-7 * dt_max;
     let cfg = Cfg { solver, t0: case.t0, t_end: case.t0 + t_len, dt_min, dt_max, tol };
     o.label(solver.name());
     o.label(cp.p.class());
@@ -131,7 +145,7 @@ pub fn run(opts: &Opts) -> i32 {
     spec.cases = opts.tier.pick(3_000, 60_000);
     spec.essential = vec![("estimator-limited", 0.15), ("generic", 0.1), ("lin", 0.2), ("bdf6", 0.1), ("rk23", 0.1)];
     spec.max_discard_frac = 0.1;
-    spec.rule = format!("generated: six adaptive solvers x problem family P (closed-form flows; generic family with a harness-side 3-stage Gauss-Legendre reference flow accurate to 1e-13 and tolerances >= 1e-9) x tolerance 10^[-10,-3] x dt_max = U(0.3,1) cap(tol)/L with cap = 2 tol^(1/5) (RK45, Adams5, BDF6) or tol^(1/3) (RK23, Adams3, BDF2), L = max(Lipschitz constant, forcing frequencies) x dt_min = 1e-7 dt_max x length 1-4 (at most 40000 maximal steps); two fifths of the linear problems start 10^[0,3] times further from their centre (solutions of size up to several hundred; the step cap is then computed from tol / that factor, the bound stays absolute). Oracle: for every consecutive pair of yielded points |y_(n+1) - Phi(t_n, y_n; t_(n+1))|_2 <= {K_RK} tol h + floor (RK, Adams) or {K_BDF} tol + floor (BDF), floor = 64 eps (1 + |y|_1). Non-trivial = path with >= 10 steps of which at least one is below the step cap. Distinct = distinct case JSON.");
+    spec.rule = format!("generated: six adaptive solvers x problem family P (closed-form flows; generic family with a harness-side 3-stage Gauss-Legendre reference flow accurate to 1e-13 and tolerances >= 1e-9) x tolerance 10^[-10,-3] x dt_max = U(0.3,1) cap(tol)/L with cap = 2 tol^(1/5) (RK45, Adams5, BDF6) or tol^(1/3) (RK23, Adams3, BDF2), L = max(Lipschitz constant, forcing frequencies) x dt_min = 1e-7 dt_max x length 1-4 (at most 40000 maximal steps); two fifths of the linear problems start 10^[0,3] times further from their centre (solutions of size up to several hundred; the step cap is then computed from tol / that factor, the bound stays absolute); for linear problems with growing modes the cap also uses tol / (cond |y0-c| e^(mu T)). Oracle: for every consecutive pair of yielded points |y_(n+1) - Phi(t_n, y_n; t_(n+1))|_2 <= {K_RK} tol h + floor (RK, Adams) or {K_BDF} tol + floor (BDF), floor = 64 eps (1 + |y|_1). Non-trivial = path with >= 10 steps of which at least one is below the step cap. Distinct = distinct case JSON.");
     spec.max_shrink_iters = 200;
     run_spec(spec, opts)
 }
